@@ -78,3 +78,198 @@ Definition brute_irreducible (a : list Z) : bool :=
   forallb (fun k => negb (divides_b (from_int p k) a))
           (zrange p (Z.to_nat (p ^ (Z.of_nat (length a) - 1) - p))).
 End Brute.
+
+(** ------------------------------------------------------------------------------------------
+    Part 2: theorems.  Bounded-exhaustive statements carry their bound and are proved by
+    vm_compute of a boolean check over the whole domain + forallb_forall. *)
+Lemma zrange_In lo n a : lo <= a < lo + Z.of_nat n <-> In a (zrange lo n).
+Proof.
+  revert lo; induction n as [|n IH]; intros lo; cbn [zrange In].
+  - split; [lia|tauto].
+  - rewrite <- IH. lia.
+Qed.
+Lemma forallb_zrange f lo n : forallb f (zrange lo n) = true -> forall a, lo <= a < lo + Z.of_nat n -> f a = true.
+Proof. intros H a Ha. apply (proj1 (forallb_forall f _) H). apply zrange_In, Ha. Qed.
+
+(** the reference test says what it should: degree >= 1 and no polynomial d with
+    p <= int(d) < p^(deg a), i.e. 1 <= deg d < deg a, leaves remainder zero *)
+Theorem brute_irreducible_iff p a : 0 <= p ->
+  brute_irreducible p a = true <->
+  (1 < length a)%nat /\
+  forall k, p <= k < p ^ (Z.of_nat (length a) - 1) -> from_int p k = [] \/ mod_nz p a (from_int p k) <> [].
+Proof.
+  intros Hp. unfold brute_irreducible. rewrite andb_true_iff, Z.ltb_lt, forallb_forall.
+  split; intros [H1 H2]; (split; [lia|]).
+  - intros k Hk. specialize (H2 k). rewrite <- zrange_In in H2.
+    assert (Hr : p <= k < p + Z.of_nat (Z.to_nat (p ^ (Z.of_nat (length a) - 1) - p))) by lia.
+    specialize (H2 Hr). unfold divides_b in H2.
+    destruct (from_int p k) as [|y d]; [left; reflexivity|right].
+    destruct (mod_nz p a (y :: d)); [discriminate|discriminate].
+  - intros k Hk. apply zrange_In in Hk.
+    assert (Hr : p <= k < p ^ (Z.of_nat (length a) - 1)) by lia.
+    specialize (H2 k Hr). unfold divides_b.
+    destruct (from_int p k) as [|y d]; [reflexivity|].
+    destruct H2 as [H2|H2]; [discriminate|]. destruct (mod_nz p a (y :: d)); [congruence|reflexivity].
+Qed.
+
+Definition irr_ok (p a : Z) : bool :=
+  match is_irreducible p (from_int p a) with
+  | Ok r => Bool.eqb r (brute_irreducible p (from_int p a))
+  | _ => false
+  end.
+Definition irr2_ok (a : Z) : bool :=
+  match is_irreducible2 a with
+  | Ok r => Bool.eqb r (brute_irreducible 2 (bits a))
+  | _ => false
+  end.
+Lemma irr_ok_spec p a : irr_ok p a = true -> is_irreducible p (from_int p a) = Ok (brute_irreducible p (from_int p a)).
+Proof. unfold irr_ok. destruct (is_irreducible p (from_int p a)); try discriminate. intros H. apply eqb_prop in H. congruence. Qed.
+Lemma irr2_ok_spec a : irr2_ok a = true -> is_irreducible2 a = Ok (brute_irreducible 2 (bits a)).
+Proof. unfold irr2_ok. destruct (is_irreducible2 a); try discriminate. intros H. apply eqb_prop in H. congruence. Qed.
+
+(** Ben-Or test = brute force, generic class, all polynomials with integer encoding below the bound *)
+Theorem is_irreducible_bounded : forall p N, In (p, N) [(2, 1024); (3, 729); (5, 625); (7, 343)] ->
+  forall a, 0 <= a < N -> is_irreducible p (from_int p a) = Ok (brute_irreducible p (from_int p a)).
+Proof.
+  intros p N H a Ha. apply irr_ok_spec. revert a Ha.
+  cbn [In] in H. destruct H as [H|[H|[H|[H|[]]]]]; inversion H; subst p N; clear H.
+  - apply (forallb_zrange (irr_ok 2) 0 1024). vm_cast_no_check (eq_refl true).
+  - apply (forallb_zrange (irr_ok 3) 0 729). vm_cast_no_check (eq_refl true).
+  - apply (forallb_zrange (irr_ok 5) 0 625). vm_cast_no_check (eq_refl true).
+  - apply (forallb_zrange (irr_ok 7) 0 343). vm_cast_no_check (eq_refl true).
+Qed.
+(** ... binary class *)
+Theorem is_irreducible2_bounded : forall a, 0 <= a < 1024 ->
+  is_irreducible2 a = Ok (brute_irreducible 2 (bits a)).
+Proof.
+  intros a Ha. apply irr2_ok_spec. revert a Ha.
+  apply (forallb_zrange irr2_ok 0 1024). vm_cast_no_check (eq_refl true).
+Qed.
+(** finfields.xGF accepts a modulus iff is_irreducible says so *)
+Theorem gf_accepts_bounded : forall p N, In (p, N) [(2, 1024); (3, 729); (5, 625); (7, 343)] ->
+  forall a, 0 <= a < N -> gf_accepts p (from_int p a) = Ok (brute_irreducible p (from_int p a)).
+Proof. exact is_irreducible_bounded. Qed.
+
+(** next_irreducible relative to is_irreducible: result b > a, monic irreducible, nothing in between *)
+Definition monic_irr (p c : Z) : bool :=
+  (last (from_int p c) 0 =? 1) && match is_irreducible p (from_int p c) with Ok true => true | _ => false end.
+Definition next_ok (p a : Z) : bool :=
+  match next_irreducible p 600 (from_int p a) with
+  | Ok b => let ib := to_int p b in
+            (a <? ib) && monic_irr p ib && forallb (fun c => negb (monic_irr p c)) (zrange (a + 1) (Z.to_nat (ib - a - 1)))
+  | _ => false
+  end.
+Definition irr2b (c : Z) : bool := match is_irreducible2 c with Ok true => true | _ => false end.
+Definition next2_ok (a : Z) : bool :=
+  match next_irreducible2 600 a with
+  | Ok b => (a <? b) && irr2b b && forallb (fun c => negb (irr2b c)) (zrange (a + 1) (Z.to_nat (b - a - 1)))
+  | _ => false
+  end.
+Lemma next_ok_spec p a : next_ok p a = true ->
+  exists b, next_irreducible p 600 (from_int p a) = Ok b /\ a < to_int p b /\ monic_irr p (to_int p b) = true /\
+            forall c, a < c < to_int p b -> monic_irr p c = false.
+Proof.
+  unfold next_ok. destruct (next_irreducible p 600 (from_int p a)) as [b| | |]; try discriminate.
+  intros H. apply andb_true_iff in H. destruct H as [H H3]. apply andb_true_iff in H. destruct H as [H1 H2].
+  exists b. split; [reflexivity|]. split; [apply Z.ltb_lt, H1|]. split; [exact H2|].
+  intros c Hc. apply negb_true_iff. apply (forallb_zrange _ _ _ H3). lia.
+Qed.
+Lemma next2_ok_spec a : next2_ok a = true ->
+  exists b, next_irreducible2 600 a = Ok b /\ a < b /\ is_irreducible2 b = Ok true /\
+            forall c, a < c < b -> is_irreducible2 c <> Ok true.
+Proof.
+  unfold next2_ok. destruct (next_irreducible2 600 a) as [b| | |]; try discriminate.
+  intros H. apply andb_true_iff in H. destruct H as [H H3]. apply andb_true_iff in H. destruct H as [H1 H2].
+  exists b. split; [reflexivity|]. split; [apply Z.ltb_lt, H1|]. split.
+  - unfold irr2b in H2. destruct (is_irreducible2 b) as [[|]| | |]; try discriminate. reflexivity.
+  - intros c Hc E. assert (Hn : negb (irr2b c) = true) by (apply (forallb_zrange _ _ _ H3); lia).
+    unfold irr2b in Hn. rewrite E in Hn. discriminate.
+Qed.
+
+(** binary class: next_irreducible is the least irreducible above its argument (a < 1024) *)
+Theorem next_irreducible2_bounded : forall a, 0 <= a < 1024 ->
+  exists b, next_irreducible2 600 a = Ok b /\ a < b /\ is_irreducible2 b = Ok true /\
+            forall c, a < c < b -> is_irreducible2 c <> Ok true.
+Proof.
+  intros a Ha. apply next2_ok_spec. revert a Ha.
+  apply (forallb_zrange next2_ok 0 1024). vm_cast_no_check (eq_refl true).
+Qed.
+
+(** generic class: the same statement is FALSE of the code as written: X is skipped (F-C24) *)
+Theorem next_irred_generic_refuted : exists p a b c,
+  prime p /\ next_irreducible p 600 (from_int p a) = Ok b /\
+  a < c < to_int p b /\ last (from_int p c) 0 = 1 /\ is_irreducible p (from_int p c) = Ok true.
+Proof.
+  exists 3, 0, [1; 1], 3. split; [apply is_prime_small_correct; reflexivity|]. vm_compute. repeat split; reflexivity.
+Qed.
+(** ... X is the only casualty: from a >= p on, the generic search is the least monic irreducible above a *)
+Theorem next_irreducible_bounded_from_p : forall p N, In (p, N) [(2, 512); (3, 243); (5, 625); (7, 343)] ->
+  forall a, p <= a < N ->
+  exists b, next_irreducible p 600 (from_int p a) = Ok b /\ a < to_int p b /\ monic_irr p (to_int p b) = true /\
+            forall c, a < c < to_int p b -> monic_irr p c = false.
+Proof.
+  intros p N H a Ha. apply next_ok_spec. revert a Ha.
+  cbn [In] in H. destruct H as [H|[H|[H|[H|[]]]]]; inversion H; subst p N; clear H.
+  - intros a Ha. apply (forallb_zrange (next_ok 2) 2 510); [vm_cast_no_check (eq_refl true)|lia].
+  - intros a Ha. apply (forallb_zrange (next_ok 3) 3 240); [vm_cast_no_check (eq_refl true)|lia].
+  - intros a Ha. apply (forallb_zrange (next_ok 5) 5 620); [vm_cast_no_check (eq_refl true)|lia].
+  - intros a Ha. apply (forallb_zrange (next_ok 7) 7 336); [vm_cast_no_check (eq_refl true)|lia].
+Qed.
+(** ... and below p it returns X+1 instead of X for every odd p in the bounded family *)
+Lemma list_eqb_true a b : list_eqb a b = true -> a = b.
+Proof.
+  unfold list_eqb. revert b; induction a as [|x a IH]; intros [|y b]; cbn; try discriminate; [reflexivity|].
+  intros H. apply andb_true_iff in H. destruct H as [H1 H2]. apply andb_true_iff in H2. destruct H2 as [H2 H3].
+  apply Z.eqb_eq in H2. subst y. f_equal. apply IH. rewrite H1, H3. reflexivity.
+Qed.
+Definition skipsX_ok (q : Z) : bool :=
+  forallb (fun a => match next_irreducible q 600 (from_int q a) with Ok b => list_eqb b [1; 1] | _ => false end)
+          (zrange 0 (Z.to_nat q))
+  && match is_irreducible q [0; 1] with Ok true => true | _ => false end.
+Theorem next_irreducible_skips_X_bounded : forall p, In p [3; 5; 7; 11; 13] ->
+  forall a, 0 <= a < p -> next_irreducible p 600 (from_int p a) = Ok [1; 1] /\ is_irreducible p [0; 1] = Ok true.
+Proof.
+  intros p H a Ha.
+  assert (K : skipsX_ok p = true).
+  { cbn [In] in H. destruct H as [H|[H|[H|[H|[H|[]]]]]]; subst p; vm_cast_no_check (eq_refl true). }
+  unfold skipsX_ok in K. apply andb_true_iff in K. destruct K as [K1 K2]. split.
+  - pose proof (forallb_zrange _ _ _ K1 a ltac:(lia)) as E. cbv beta in E.
+    destruct (next_irreducible p 600 (from_int p a)) as [b| | |]; try discriminate.
+    apply list_eqb_true in E. congruence.
+  - destruct (is_irreducible p [0; 1]) as [[|]| | |]; try discriminate. reflexivity.
+Qed.
+
+(** find_irreducible(p, d): smallest monic irreducible of degree d (bounded d); for the generic class and d = 1 this
+    is X+1 instead of X (same finding) *)
+Definition find2_ok (d : Z) : bool :=
+  match find_irreducible2 600 d with
+  | Ok b => (2 ^ d <=? b) && (b <? 2 ^ (d + 1)) && irr2b b && forallb (fun c => negb (irr2b c)) (zrange (2 ^ d) (Z.to_nat (b - 2 ^ d)))
+  | _ => false
+  end.
+Theorem find_irreducible2_smallest_bounded : forall d, 1 <= d <= 12 ->
+  exists b, find_irreducible2 600 d = Ok b /\ 2 ^ d <= b < 2 ^ (d + 1) /\ is_irreducible2 b = Ok true /\
+            forall c, 2 ^ d <= c < b -> is_irreducible2 c <> Ok true.
+Proof.
+  intros d Hd.
+  assert (F : forallb find2_ok (zrange 1 12) = true) by (vm_cast_no_check (eq_refl true)).
+  assert (Hr : 1 <= d < 1 + Z.of_nat 12) by lia.
+  pose proof (forallb_zrange find2_ok 1 12 F d Hr) as H. clear F Hr Hd. unfold find2_ok in H.
+  destruct (find_irreducible2 600 d) as [b| | |]; try discriminate.
+  set (T := 2 ^ d) in *. set (T2 := 2 ^ (d + 1)) in *. clearbody T T2.
+  apply andb_true_iff in H. destruct H as [H H4]. apply andb_true_iff in H. destruct H as [H H3].
+  apply andb_true_iff in H. destruct H as [H1 H2]. apply Z.leb_le in H1. apply Z.ltb_lt in H2.
+  exists b. split; [reflexivity|]. split; [split; assumption|]. split.
+  - unfold irr2b in H3. destruct (is_irreducible2 b) as [[|]| | |]; try discriminate. reflexivity.
+  - intros c Hc E.
+    assert (Hn : negb (irr2b c) = true).
+    { apply (forallb_zrange (fun c => negb (irr2b c)) T (Z.to_nat (b - T)) H4). lia. }
+    unfold irr2b in Hn. rewrite E in Hn. discriminate.
+Qed.
+(** generic class, d >= 2 (p^d - 1 >= p): find_irreducible(p, d) = next_irreducible(p^d - 1) is the least monic
+    irreducible of integer encoding >= p^d, on the bounded domains; for d = 1 it is X+1 instead of X
+    (next_irreducible_skips_X_bounded with a = p - 1) *)
+Theorem find_irreducible_bounded : forall p N, In (p, N) [(2, 512); (3, 243); (5, 625); (7, 343)] ->
+  forall d, p <= p ^ d - 1 < N ->
+  exists b, find_irreducible p 600 d = Ok b /\ p ^ d - 1 < to_int p b /\ monic_irr p (to_int p b) = true /\
+            forall c, p ^ d - 1 < c < to_int p b -> monic_irr p c = false.
+Proof. intros p N H d Hd. exact (next_irreducible_bounded_from_p p N H (p ^ d - 1) Hd). Qed.
